@@ -214,6 +214,7 @@ class Executor:
         self._cmp_sites = []
         self.on_yield = None  # scheduler callback for multi-threaded exploration
         self.auto = None  # RiviaIndex: any callee that is rivia code runs from its MIR
+        self.structs = None  # {struct name: [(field, type text)]} of rivia's sources (declaration order)
         self.drop_hook = None  # called for MIR `drop(place)` terminators: may return a (fn, args) to run
 
     # ---------------------------------------------------------------- solver-backed decisions
@@ -630,7 +631,8 @@ class Executor:
             a = Adt(strip_generics(head).split("::")[-1], None, None, vals)
             return a
         if k == "closure":
-            return FnItem(rv.extra[0], [self.eval_operand(st, a) for a in rv.args])
+            caps = [self.eval_operand(st, a) for a in rv.args]
+            return FnItem(rv.extra[0], self._closure_captures(st, rv, caps))
         if k == "tuple":
             return Adt("(tuple)", None, None, [self.eval_operand(st, a) for a in rv.args])
         if k == "array":
@@ -655,6 +657,53 @@ class Executor:
         st.frames.append(fr)
 
     RE_FNTRAIT = re.compile(r"^<(.*) as (Fn|FnMut|FnOnce)<\((.*)\)>>::(call|call_mut|call_once)$")
+
+    def _closure_captures(self, st, rv, printed):
+        """rustc's MIR printer zips the aggregate's operands with the *variables* a closure mentions, so with
+        disjoint field captures (edition 2021) it prints fewer operands than the closure has captures.  The
+        closure body's debug info names every capture (`debug m__sym => ((*_1).2: String)`): rebuild the missing
+        operands from the creating function's variables (`debug m => _13`) and rivia's struct field order."""
+        try:
+            body = self.closure_body(FnItem(rv.extra[0]))
+        except Unsupported:
+            return printed
+        if body is None:
+            return printed
+        caps = {}
+        for name, place in body.debug:
+            m = re.match(r"^\(\(?\*?_1\)?\.(\d+): ", place)
+            if m:
+                caps[int(m.group(1))] = (name, place)
+        if len(caps) <= len(printed):
+            return printed
+        parent = self.frame(st).fn
+        out = []
+        for k in range(max(caps) + 1):
+            if k not in caps:
+                raise Unsupported("closure %s: capture %d has no debug name" % (rv.extra[0], k))
+            name, place = caps[k]
+            if place.startswith("(*("):
+                raise Unsupported("closure %s captures %s by reference and the printer dropped the operand" % (rv.extra[0], name))
+            parts = name.split("__")
+            locs = [pl for dn, pl in parent.debug if dn == parts[0] and re.fullmatch(r"_\d+", pl)]
+            if len(set(locs)) != 1:
+                raise Unsupported("closure %s: variable %s maps to %d locals in %s" % (rv.extra[0], parts[0], len(set(locs)), parent.name))
+            v = self.frame(st).locals.get(locs[0])
+            if v is None:
+                raise Unsupported("closure %s: captured variable %s (%s) is not initialised" % (rv.extra[0], parts[0], locs[0]))
+            ty = parent.locals.get(locs[0], "")
+            for fld in parts[1:]:
+                sname = strip_generics(ty).split("::")[-1].strip()
+                fields = (self.structs or {}).get(sname)
+                if not fields or fld not in [f for f, _ in fields]:
+                    raise Unsupported("closure %s: field %s of %s is unknown (capture %s)" % (rv.extra[0], fld, sname, name))
+                idx = [f for f, _ in fields].index(fld)
+                ty = fields[idx][1]
+                while isinstance(v, (Ref, BoxRef)):
+                    v = self.deref(st, v)
+                v = v.get_field(idx) if hasattr(v, "get_field") else v.fields[idx]
+            out.append(v)
+        return out
 
     def closure_body(self, fnval):
         """MIR body of a closure value, found by the source span in its type."""
